@@ -49,6 +49,8 @@ static const struct reqset reqsets[] = {
 	/* 9 */ { 1, { K_A_IGNTC }, { 0 } },
 	/* 10 */ { 2, { K_A_SEARCH, K_GAI4 }, { 0, 0 } },
 	/* 11 */ { 2, { K_A_VC, K_GAI }, { 0, 0 } },
+	/* 12 */ { 3, { K_A_VC, K_A_VC, K_A_VC }, { 0, 6000, 7000 } },
+	/* 13 */ { 3, { K_A_VC, K_A, K_A_VC }, { 0, 0, 6000 } },
 };
 #define N_REQSETS ((int)(sizeof reqsets / sizeof reqsets[0]))
 static const int inflight_opts[] = { 64, 1, 2 };
@@ -586,12 +588,14 @@ static void body(void)
 
 	/* ---- configuration (free choices) ---- */
 	if (rsmax > N_REQSETS) rsmax = N_REQSETS;
-	int rs = mc_choose(rsmax, 0, "reqset");
+	int only = mc_param("only_reqset", -1);
+	int rs = only >= 0 ? only : mc_choose(rsmax, 0, "reqset");
 	nns = 1 + mc_choose(2, 0, "nameservers");
 	int mi = inflight_opts[mc_choose(3, 0, "max-inflight")];
 	int attempts = att_lo + mc_choose(att_hi - att_lo + 1, 0, "attempts");
-	int rngmode = rngmodes > 1 ? 1 - mc_choose(2, 0, "rng-mode") : 1;
-	if (rs == 7 && attempts < 3) attempts = 3;      /* staggered TCP requests need a second retransmission */
+	static const int rng_order[] = { 1, 2, 0 };
+	int rngmode = rng_order[rngmodes > 1 ? mc_choose(rngmodes > 3 ? 3 : rngmodes, 0, "rng-mode") : 0];
+	if ((rs == 7 || rs == 12 || rs == 13) && attempts < 3) attempts = 3;      /* staggered TCP requests need a second retransmission */
 	const struct reqset *RS = &reqsets[rs];
 	mc_observe("cfg{set=%d ns=%d inflight=%d attempts=%d rng=%d} ", rs, nns, mi, attempts, rngmode);
 
